@@ -11,6 +11,7 @@ import Driver.RewriteCmd
 import Driver.FunctorCmd
 import Driver.CartesianCmd
 import Driver.WiresCmd
+import Driver.ReprCmd
 
 def handlers : List (String → List String → Option String) :=
   [ DV.CoreCmd.handle
@@ -18,6 +19,7 @@ def handlers : List (String → List String → Option String) :=
   , DV.FunctorCmd.handle
   , DV.CartCmd.handle
   , DV.WiresCmd.handle
+  , DV.ReprCmd.handle
   ]
 
 def handle (line : String) : String :=
